@@ -39,6 +39,16 @@ CHECKS = {
    text="Same generator as C12 (programs x trivia x options); the formatter output is formatted again with the same options and must be unchanged for every file. Layouts that trigger the three recorded findings are excluded from the clean campaign and confirmed separately.",
    note="In-process formatter; inputs whose first formatting does not parse are C12's business and are not judged here.",
    ref="§5 C13"),
+ "C07": dict(
+   technique="proptest over entropy-built programs; metamorphic oracle bytes(P) == bytes(expand_k(P)) for k in {loops, ifs, macros, constants, all}, anchored by the reference layout model on P and expand_all(P)",
+   text="Generated programs with nested loops (with `index`), constant conditionals, macros (with parameters, invoked anywhere incl. inside loops, defining labels) and pure constants, with outer and forward references in bodies, are compared with their hand expansion (model/expand.rs): both must assemble (or both be rejected) to identical segment images; the fully expanded program and the original are also checked byte-for-byte against the reference layout walk, so a bug common to both sides is not invisible.",
+   note="Import expansion is not generated yet (single-file programs); brace scopes are exercised as part of every expansion (loop bodies and macro bodies become brace scopes). Constants reached through dotted/super paths and variables are left unexpanded.",
+   ref="§5 C07"),
+ "C08": dict(
+   technique="proptest, metamorphic oracle: canonical rendering vs random trivia/case rendering of the same AST must give equal bytes, symbols and diagnostic messages",
+   text="Each generated program is rendered twice from the same AST: canonically and with random trivia in every slot the grammar allows (spaces, tabs, block/line/nested/multi-line/non-ASCII comments containing code-like text, blank lines, CRLF) and random letter case of mnemonics, directives, registers, hex digits, as/from/else, encodings and true/false; segment bytes, the symbol table and the sorted diagnostic messages must be equal.",
+   note="The slot catalogue is the renderer's (gen/ast.rs), derived from the grammar; slots where the grammar allows no trivia are never filled.",
+   ref="§5 C08"),
 }
 
 NOT_YET = {
